@@ -104,6 +104,103 @@ def vocabulary(prog: Optional[Program], fi_or_node, module=None) -> set:
     return out
 
 
+MAX_EDIT = 4      # statements (normalised, locals alpha-renamed) that may differ from the reference version
+
+
+def canon_stmts(fnode) -> list:
+    """pre-order list of the function's statements as canonical text: in each statement the function's locals and parameters
+    are renamed by order of first occurrence *within that statement* (so renaming a local, or adding one, does not change the
+    other statements), annotations and docstrings are dropped, compound statements contribute their header only"""
+    import copy
+    f = copy.deepcopy(fnode)
+    local = {a.arg for a in f.args.posonlyargs + f.args.args + f.args.kwonlyargs}
+    local |= {n.id for n in ast.walk(f) if isinstance(n, ast.Name) and isinstance(n.ctx, (ast.Store, ast.Del))}
+    out: list = []
+
+    def text(node) -> str:
+        names: dict = {}
+
+        class R(ast.NodeTransformer):
+            def visit_Name(self, n):
+                if n.id in local:
+                    n.id = names.setdefault(n.id, f"v{len(names)}")
+                return n
+
+            def visit_arg(self, a):
+                a.arg = names.setdefault(a.arg, f"v{len(names)}")
+                a.annotation = None
+                return a
+        try:
+            return ast.unparse(R().visit(node))[:300]
+        except Exception:
+            return type(node).__name__
+
+    def rec(stmts):
+        for st in stmts:
+            if isinstance(st, ast.Expr) and isinstance(st.value, ast.Constant) and isinstance(st.value.value, str):
+                continue
+            if isinstance(st, (ast.FunctionDef, ast.AsyncFunctionDef)):
+                out.append("def/" + str(len(st.args.args)))
+                rec(st.body)
+                continue
+            if isinstance(st, ast.AnnAssign) and st.value is not None:
+                st = ast.Assign(targets=[st.target], value=st.value)
+            hdr = copy.copy(st)
+            subs = []
+            for fld in ("body", "orelse", "finalbody"):
+                b = getattr(st, fld, None)
+                if isinstance(b, list) and b and isinstance(b[0], ast.stmt):
+                    subs.append(b)
+                    setattr(hdr, fld, [])
+            hs = getattr(st, "handlers", None)
+            if hs:
+                hdr.handlers = []
+            out.append(type(st).__name__ + ":" + text(hdr))
+            for b in subs:
+                rec(b)
+            for h in hs or []:
+                rec(h.body)
+    rec(f.body)
+    return out
+
+
+def edit_distance(a: list, b: list) -> int:
+    import difflib
+    sm = difflib.SequenceMatcher(a=a, b=b, autojunk=False)
+    d = 0
+    for tag, i1, i2, j1, j2 in sm.get_opcodes():
+        if tag != "equal":
+            d += max(i2 - i1, j2 - j1)
+    return d
+
+
+_RAW_CACHE: dict = {}
+
+
+def _raw_function(fi):
+    """the function's node in the *un-normalised* parse of its module"""
+    mod = fi.module
+    key = (mod.path, hash(mod.source))
+    tree = _RAW_CACHE.get(key)
+    if tree is None:
+        try:
+            tree = ast.parse(mod.source)
+        except SyntaxError:
+            return None
+        _RAW_CACHE[key] = tree
+    parts = fi.qualname[len(mod.name) + 1:].split(".")
+    cur = tree
+    for p_ in parts:
+        nxt = None
+        for st in getattr(cur, "body", []):
+            if isinstance(st, (ast.ClassDef, ast.FunctionDef, ast.AsyncFunctionDef)) and st.name == p_:
+                nxt = st
+        if nxt is None:
+            return None
+        cur = nxt
+    return cur if isinstance(cur, (ast.FunctionDef, ast.AsyncFunctionDef)) else None
+
+
 def reference() -> dict:
     global _REF
     if _REF is None:
@@ -211,6 +308,17 @@ def unfamiliar(prog: Program, qual_tail: str, text: str = "", depth: int = 3) ->
             new = _new_in(prog, fi, fi.qualname)
             if new:
                 return f"{fi.qualname} now uses {new[:4]} which its reference version did not"
+            rs = ref.get("#stmts", {}).get(fi.qualname)
+            if rs is not None and fi.outer is None:
+                dd = edit_distance(rs, canon_stmts(fi.node))
+                if dd > MAX_EDIT:
+                    # the normal forms can drift apart when only one side could be canonicalised: compare the sources too
+                    raw_ref = ref.get("#stmts_raw", {}).get(fi.qualname)
+                    raw_cur = _raw_function(fi)
+                    if raw_ref is not None and raw_cur is not None:
+                        dd = min(dd, edit_distance(raw_ref, canon_stmts(raw_cur)))
+                if dd > MAX_EDIT:
+                    return f"{fi.qualname} differs from its reference version in {dd} statements (more than {MAX_EDIT}: restructured)"
         elif fi.qualname.rsplit(".", 1)[-1] not in ref.get("#names", ()):
             return f"{fi.qualname} is a new helper the rules were never confirmed on"
         if d < depth:
